@@ -5,9 +5,24 @@ import NeoModel.Props.C03Find
 import NeoModel.Model.StateCommit.Get
 namespace NeoModel.StateCommit.Find
 open NeoModel.Store (Layer overlay layerSays)
+open NeoModel.Wire (Item)
 
-theorem trieStoreGet_eq (t : Mpt.Node) : trieStoreGet t = trieFlat t := by
-  funext k; cases k <;> rfl
+/-- within the key-length limit `TrieStore.Get` reads the map the TrieStore stands for. -/
+theorem trieStoreGet_eq (t : Mpt.Node) (k : Bytes) (h : k.length ≤ maxKeyLength + 1) :
+    trieStoreGet t k = trieFlat t k := by
+  cases k with
+  | nil => rfl
+  | cons b k' =>
+    have : ¬ k'.length > maxKeyLength := by simp only [List.length_cons] at h; omega
+    simp only [trieStoreGet, trieFlat, this, if_false]
+
+theorem storageKey_length (sp : UInt8) (id : Nat) (key : Bytes) : (storageKey sp id key).length = key.length + 5 := by
+  simp [storageKey, le32, Wire.leBytes]
+
+/-- limits.MaxStorageKeyLen: the longest key System.Storage.Put accepts (interop/storage/basic.go:111). -/
+def maxStorageKeyLen : Nat := 64
+
+theorem maxKeyLength_eq : maxKeyLength = maxStorageKeyLen + 4 := rfl
 
 /-- a stack of cache layers over a backend reads the overlaid map. -/
 theorem layersGet_overlays (base : Bytes → Option Bytes) (Ls : List Layer) (k : Bytes) :
@@ -24,13 +39,15 @@ theorem layersGet_overlays (base : Bytes → Option Bytes) (Ls : List Layer) (k 
 history, any live store stack holding that history's storage under the storage prefix, the
 invocation's own uncommitted writes `W` on both sides, empty cache layers `E` over
 `TrieStore(root of the trie after bs)` on the historic side. System.Storage.Get returns the same on
-both sides for every contract id and key — namely the invocation's own write if it made one, else
+both sides for every contract id and EVERY key of up to limits.MaxStorageKeyLen = 64 bytes, the limit
+itself included (the trie key `id ‖ key` then has up to MaxKeyLength = 68 bytes, which `Trie.Get` still
+accepts; longer keys cannot be stored) — namely the invocation's own write if it made one, else
 what contract storage holds after `bs`. -/
 theorem historic_get_eq_live (bs : List (List Change)) (hok : ∀ b ∈ bs, DistinctKeys b)
     (S : Store.Store) (sp : UInt8) (hsp : sp = 0x70 ∨ sp = 0x71)
     (hagree : ∀ k, S.flatten (sp :: k) = storageAt bs k)
     (W : Layer) (E : List Layer) (hE : ∀ L ∈ E, L.mem = [] ∧ L.stor = [])
-    (id : Nat) (key : Bytes) :
+    (id : Nat) (key : Bytes) (hlen : key.length ≤ maxStorageKeyLen) :
     getHistoric (trieAt mptMap bs) (W :: E) sp id key = getLive (.cached W S) sp id key ∧
     getLive (.cached W S) sp id key =
       (match layerSays W (storageKey sp id key) with
@@ -51,13 +68,14 @@ theorem historic_get_eq_live (bs : List (List Change)) (hok : ∀ b ∈ bs, Dist
   refine ⟨?_, hlive⟩
   rw [hlive]
   unfold getHistoric
-  rw [layersGet_overlays, trieStoreGet_eq]
+  rw [layersGet_overlays]
   simp only [overlays, overlay]
   cases layerSays W (storageKey sp id key) with
   | some o => cases o <;> rfl
   | none =>
     simp only
-    rw [overlays_empty E hE]
+    rw [overlays_empty E hE, trieStoreGet_eq _ _ (by
+      rw [storageKey_length]; unfold maxStorageKeyLen at hlen; unfold maxKeyLength; omega)]
     simp only [storageKey]
     exact trieFlat_trieAt bs hok sp hsp _
 
@@ -71,7 +89,52 @@ example : getHistoric (trieAt mptMap exBs) [Layer.fresh true, Layer.fresh false]
 
 example : getLive (.cached (Layer.fresh true) exS) 0x70 5 [1,3] = some [] := by
   rw [← (historic_get_eq_live exBs exOk exS 0x70 (Or.inl rfl) exAgree (Layer.fresh true) [Layer.fresh false]
-    (by simp [Layer.fresh]) 5 [1,3]).1]
+    (by simp [Layer.fresh]) 5 [1,3] (by decide)).1]
+  decide +kernel
+
+/-- **C03.G2 — the syscall on the whole key domain.** For EVERY key, of any length, System.Storage.Get
+gives the same outcome in the historic and in the live invocation: up to 64 bytes (the limit included)
+the same value or Null by G1, above it the same fault. -/
+theorem historic_getSyscall_eq_live (bs : List (List Change)) (hok : ∀ b ∈ bs, DistinctKeys b)
+    (S : Store.Store) (sp : UInt8) (hsp : sp = 0x70 ∨ sp = 0x71)
+    (hagree : ∀ k, S.flatten (sp :: k) = storageAt bs k)
+    (W : Layer) (E : List Layer) (hE : ∀ L ∈ E, L.mem = [] ∧ L.stor = []) (id : Nat) (key : Bytes) :
+    getSyscallHistoric (trieAt mptMap bs) (W :: E) sp id key = getSyscallLive (.cached W S) sp id key := by
+  unfold getSyscallHistoric getSyscallLive
+  by_cases ho : keyBufOverflow key = true
+  · simp only [ho, if_true]
+  · simp only [ho, Bool.false_eq_true, if_false]
+    have hlen : key.length ≤ maxStorageKeyLen := by
+      simp only [keyBufOverflow, decide_eq_true_eq] at ho
+      unfold maxStorageKeyLen; omega
+    rw [(historic_get_eq_live bs hok S sp hsp hagree W E hE id key hlen).1]
+
+/-- a key one byte over the limit is refused by `Trie.Get`'s guard (and cannot be in storage). -/
+theorem getHistoric_overlong (t : Mpt.Node) (E : List Layer) (hE : ∀ L ∈ E, L.mem = [] ∧ L.stor = [])
+    (sp : UInt8) (id : Nat) (key : Bytes) (h : key.length > maxStorageKeyLen) :
+    getHistoric t E sp id key = none := by
+  unfold getHistoric
+  rw [layersGet_overlays, overlays_empty E hE]
+  have : (le32 id ++ key).length > maxKeyLength := by
+    simp [le32, Wire.leBytes]; unfold maxStorageKeyLen at h; unfold maxKeyLength; omega
+  simp only [storageKey, trieStoreGet, this, if_true]
+  split <;> rfl
+
+-- the boundary: a key of exactly 64 bytes (trie key of exactly 68) is read back through the historic path
+def key64 : Bytes := List.replicate 62 0x12 ++ [1, 2]
+example : key64.length = maxStorageKeyLen ∧
+    getHistoric (trieAt mptMap [[(le32 5 ++ key64, some [9]), (le32 5 ++ key64.dropLast, some [])]])
+      [Layer.fresh true, Layer.fresh false] 0x70 5 key64 = some [9] ∧
+    getHistoric (trieAt mptMap [[(le32 5 ++ key64, some [9])]])
+      [Layer.fresh true, Layer.fresh false] 0x70 5 (key64 ++ [3]) = none := by
+  decide +kernel
+
+-- … and a System.Storage.Find whose prefix is that whole 64-byte key returns it in the historic invocation
+-- (`historic_find_eq_live` holds for every prefix: up to 64 bytes by the range theorems, above by the same fault)
+example : encs (findHistoric (trieAt mptMap [[(le32 5 ++ key64, some [9]), (le32 5 ++ key64.dropLast, some [])]])
+      [Layer.fresh true, Layer.fresh false] 0x70 5 key64 4) = some [Item.enc (.byteArray [9])] ∧
+    encs (findHistoric (trieAt mptMap [[(le32 5 ++ key64, some [9])]])
+      [Layer.fresh true, Layer.fresh false] 0x70 5 (key64 ++ [3]) 0) = none := by
   decide +kernel
 
 end NeoModel.StateCommit.Find
